@@ -54,7 +54,7 @@ ID = "C06"
 LEAN_TARGETS = ["RV.C06.Props", "RV.C06.Audit"]
 AUDIT = "RV/C06/Audit.lean"
 DRIVER = "drv_c06"
-CASES = {"quick": 2000, "thorough": 40000, "search": 20000}
+CASES = {"quick": 1600, "thorough": 40000, "search": 20000}
 RULE = ("random datasets: 0-4 named graphs (IRI and blank-node names, registered-but-empty graphs, empty or "
         "non-empty default graph), triples shared by several graphs, blank nodes shared across graphs and with "
         "graph names, graph names occurring as subject/object, awkward and non-ASCII literals/IRIs, well-formed RDF "
